@@ -692,6 +692,25 @@ class Interp:
             raise LispError("args-out-of-range aref")
         return items[i]
 
+    def fn_memq(self, x, l):
+        """`eq`: characters and other fixnums are `eq` when they are the same number; strings and conses only to themselves"""
+        while isinstance(l, Cons):
+            c = l.car
+            if c is x or (isinstance(x, int) and isinstance(c, int) and not isinstance(x, bool) and x == c):
+                return l
+            l = l.cdr
+        return NIL
+
+    fn_memql = fn_memq
+
+    def fn_assq(self, k, al):
+        while isinstance(al, Cons):
+            e = al.car
+            if isinstance(e, Cons) and (e.car is k or (isinstance(k, int) and isinstance(e.car, int) and k == e.car)):
+                return e
+            al = al.cdr
+        return NIL
+
     def fn_member(self, x, l):
         while isinstance(l, Cons):
             if l_equal(x, l.car):
